@@ -84,6 +84,8 @@ def judge(script, impl):
             gen_of[toks[1]] = int(line.split()[1]); continue
         if toks[0] == "clone" and line.startswith("gen "):
             gen_of[toks[2]] = int(line.split()[1]); continue
+        if toks[0] == "clonefrom" and line.startswith("gen "):
+            gen_of[toks[1]] = int(line.split()[1]); continue
         if toks[0] != "unwind":
             continue
         if vlib.outcome(line)[0] in ("panic", "hang", "bad", "missing"):
